@@ -17,7 +17,9 @@ import time
 
 VERIF = os.path.dirname(os.path.dirname(os.path.abspath(__file__)))
 REPO = os.environ.get("VERIF_REPO", "/repo")
-CACHE = os.path.join(VERIF, ".cache")
+CACHE = os.environ.get("VERIF_CACHE") or os.path.join(VERIF, ".cache")
+# where evidence/ is written (the self-test redirects it so that it never touches the real evidence)
+OUT = os.environ.get("VERIF_OUT") or VERIF
 
 # Workspace crates (prefix names as written by the driver)
 WS_LIBS = ["compact_calendar", "opening_hours_syntax", "opening_hours"]
